@@ -11,11 +11,11 @@
 (* laws; each must make TLC report a violated invariant):                  *)
 (*   "KRhoOrder"   T^ = K (1 - i K rho)^-1                                 *)
 (*   "RhoNotSqrt"  T = rho T^ rho                                          *)
-(*   "FTransposed" F = ((1 - iK)^-1)^T P                                   *)
 (***************************************************************************)
 EXTENDS KMatrixLattice
 
-CONSTANTS MaxN, Dev
+CONSTANTS MaxN, Dev,
+          WithP      \* FALSE: the production vector stays at its first lattice value (C09 does not need it)
 
 VARIABLES n, kx, rx, px
 vars == <<n, kx, rx, px>>
@@ -26,7 +26,7 @@ Init == /\ n \in 1..MaxN
         /\ px = 1
 SetK(e, v) == kx[e] # v /\ kx' = [kx EXCEPT ![e] = v] /\ UNCHANGED <<n, rx, px>>
 SetRho(i, v) == rx[i] # v /\ rx' = [rx EXCEPT ![i] = v] /\ UNCHANGED <<n, kx, px>>
-SetP(v) == px # v /\ px' = v /\ UNCHANGED <<n, kx, rx>>
+SetP(v) == WithP /\ px # v /\ px' = v /\ UNCHANGED <<n, kx, rx>>
 Next == \/ \E e \in 1..Tri(n), v \in 1..NK : SetK(e, v)
         \/ \E i \in 1..n, v \in 1..NRho : SetRho(i, v)
         \/ \E v \in 1..NP : SetP(v)
@@ -39,11 +39,8 @@ P == Col(POf(n, px))
 
 That == IF Dev = "KRhoOrder" THEN MMul(K, Inverse(OneMinusIKD(Rho, K))) ELSE RefThat(K, Rho)
 T == IF Dev = "RhoNotSqrt" THEN MMul(MMul(MDiag(Rho), That), MDiag(Rho))
-     ELSE MMul(MMul(MDiag([i \in 1..n |-> GConj(Sq[i])]), That), MDiag(Sq))
+     ELSE MMul(MMul(MDiag(VConj(Sq)), That), MDiag(Sq))
 Tnr == RefTnr(K)
-F == IF Dev = "FTransposed" THEN MMul(MTranspose(Inverse(OneMinusIK(K))), P) ELSE RefF(K, P)
-Fhat == RefFhat(K, Rho, Sq, P)
-Frel == MMul(MDiag(Sq), Fhat)
 
 TypeOK == /\ n \in 1..MaxN
           /\ RealSymmetric(KOf(n, kx))
@@ -54,18 +51,42 @@ TypeOK == /\ n \in 1..MaxN
 RelLaws == RelThatLaw(That, K, Rho) /\ RelTLaw(T, That, Sq)
 RelSymmetric == Symmetric(T) /\ Symmetric(That)
 RelUnitary == InBudget(T) => Unitary(T)
-NonRelLaws == NonRelLaw(Tnr, K)
-NonRelSymmetric == Symmetric(Tnr)
-NonRelUnitary == InBudget(Tnr) => Unitary(Tnr)
-\* the integer form of unitarity agrees with the Gaussian-rational form (small denominators only)
-UnitaryFormsAgree == /\ CommonDen(Tnr) <= 150 => (Unitary(Tnr) <=> UnitaryRat(Tnr))
-                     /\ CommonDen(T) <= 150 => (Unitary(T) <=> UnitaryRat(T))
-\* T = K(1-iK)^-1 with K -> sqrt(rho) K^ sqrt(rho): the two formulations agree
-RelIsNonRelOfScaledK ==
-  LET Ks == MMul(MMul(MDiag(Sq), K), MDiag(Sq)) IN NonRelLaw(T, Ks)
 
-\* C10 -----------------------------------------------------------------------
-FLaws == NonRelFLaw(F, K, P) /\ FViaT(F, Tnr, P)
-FhatLaws == RelFhatLaw(Fhat, K, Sq, P) /\ RelFLaw(Frel, Fhat, Sq)
-FrelClosed == MMul(OneMinusIK(K), Frel) = MMul(MDiag(Sq), P)       \* (1 - iK) F = sqrt(rho) P
+\* All laws in one invariant: every matrix is computed once per state (LET values are
+\* cached by TLC); a failing law is named by a PrintT.
+Named(name, ok) == IF ok THEN TRUE ELSE PrintT(<<"LAW-VIOLATED", name, n, kx, rx, px>>) /\ FALSE
+AllLaws ==
+  LET k == K  rho == Rho  sq == Sq  p == P
+      that == RefThat(k, rho)
+      t == MMul(MMul(MDiag(VConj(sq)), that), MDiag(sq))
+      tnr == RefTnr(k)
+      f == RefF(k, p)
+      fhat == RefFhat(k, rho, sq, p)
+      frel == MMul(MDiag(sq), fhat)
+      ks == MMul(MMul(MDiag(sq), k), MDiag(sq))
+      ct == CommonDen(t)  ctnr == CommonDen(tnr)
+  IN
+  \* C09: the mechanism laws characterise T^, T ...
+  /\ Named("RelThatLaw", RelThatLaw(that, k, rho))
+  /\ Named("RelTLaw", RelTLaw(t, that, sq))
+  /\ Named("NonRelLaw", NonRelLaw(tnr, k))
+  \* ... T = K'(1 - iK')^-1 for K' = sqrt(rho) K sqrt(rho): the two formulations agree ...
+  /\ Named("RelIsNonRelOfScaledK", NonRelLaw(t, ks))
+  \* ... and unitarity and symmetry follow for every real symmetric K and positive rho
+  /\ Named("RelSymmetric", Symmetric(t) /\ Symmetric(that))
+  /\ Named("NonRelSymmetric", Symmetric(tnr))
+  /\ Named("RelUnitary", ct <= CMax => Unitary(t))
+  /\ Named("NonRelUnitary", ctnr <= CMax => Unitary(tnr))
+  \* the integer form of unitarity agrees with the Gaussian-rational form (small denominators only)
+  /\ Named("UnitaryFormsAgree", /\ ctnr <= 150 => (Unitary(tnr) <=> UnitaryRat(tnr))
+                                /\ ct <= 150 => (Unitary(t) <=> UnitaryRat(t)))
+  \* C10
+  /\ Named("NonRelFLaw", NonRelFLaw(f, k, p))
+  /\ Named("FViaT", FViaT(f, tnr, p))
+  /\ Named("RelFhatLaw", RelFhatLaw(fhat, k, sq, p))
+  /\ Named("RelFLaw", RelFLaw(frel, fhat, sq))
+  /\ Named("FrelClosed", MMul(OneMinusIK(k), frel) = MMul(MDiag(sq), p))      \* (1 - iK) F = sqrt(rho) P
+
+\* how many lattice states have matrices inside the integer budget of Unitary (reported)
+InBudgetBoth == InBudget(T) /\ InBudget(Tnr)
 =============================================================================
